@@ -22,6 +22,9 @@ pub struct Rec {
     pub extra_fmt: bool,
     /// record kind tag (reach probes only)
     pub kind: u8,
+    /// the record's FORMAT column has no GT key (only DP): every genotype is missing
+    #[serde(default)]
+    pub no_gt: bool,
 }
 
 #[derive(Clone, Debug, PartialEq, Serialize, Deserialize)]
@@ -190,6 +193,8 @@ pub struct CallSetParams {
     pub allow_missing: bool,
     pub allow_project: bool,
     pub allow_strict: bool,
+    /// now and then a record without a GT key in its FORMAT column
+    pub allow_no_gt: bool,
     /// weights over record kinds
     pub kind_w: [u32; N_KINDS],
 }
@@ -204,6 +209,7 @@ impl CallSetParams {
             allow_missing: true,
             allow_project: true,
             allow_strict: false,
+            allow_no_gt: false,
             kind_w: [6, 3, 2, 2, 1, 2, 2, 2, 0, 0, 1, 1],
         }
     }
@@ -409,6 +415,7 @@ pub fn gen_rec(rng: &mut Rng, kind: u8, samples: &[String], cfg: &Config, contig
         gts,
         extra_fmt: rng.chance(1, 4),
         kind,
+        no_gt: false,
     }
 }
 
@@ -459,7 +466,12 @@ pub fn gen_callset(rng: &mut Rng, p: &CallSetParams) -> (CallSet, Config) {
             pos += 1 + rng.below(50) as u32;
         }
         let kind = rng.weighted(&w) as u8;
-        recs.push(gen_rec(rng, kind, &samples, &cfg, contig, pos));
+        let mut rec = gen_rec(rng, kind, &samples, &cfg, contig, pos);
+        if p.allow_no_gt && rng.chance(1, 14) {
+            rec.no_gt = true;
+            rec.kind = K_ALL_MISSING;
+        }
+        recs.push(rec);
     }
     (
         CallSet {
@@ -511,10 +523,20 @@ impl CallSet {
             refb,
             alts.join(","),
             info,
-            if r.extra_fmt { "GT:DP" } else { "GT" }
+            if r.no_gt {
+                "DP"
+            } else if r.extra_fmt {
+                "GT:DP"
+            } else {
+                "GT"
+            }
         );
         for (i, g) in r.gts.iter().enumerate() {
             s.push('\t');
+            if r.no_gt {
+                s.push_str(&format!("{}", 3 + (i + r.pos as usize) % 9));
+                continue;
+            }
             s.push_str(g);
             if r.extra_fmt {
                 s.push_str(&format!(":{}", 3 + (i + r.pos as usize) % 9));
